@@ -180,9 +180,26 @@ func (w *W) Begin(caseID string, replay any) {
 	w.started.Store(time.Now().UnixNano())
 }
 
+// CounterHook, when set, returns process-wide tallies; End adds their growth since the
+// previous End to the case's counters.
+var CounterHook func() map[string]int
+
+var lastHook = map[string]int{}
+
 // End logs the result of the current case.
 func (w *W) End(r Result) {
 	w.started.Store(0)
+	if CounterHook != nil {
+		for k, v := range CounterHook() {
+			if d := v - lastHook[k]; d > 0 {
+				if r.Counters == nil {
+					r.Counters = map[string]int{}
+				}
+				r.Counters[k] += d
+			}
+			lastHook[k] = v
+		}
+	}
 	w.curMu.Lock()
 	cur := w.cur
 	w.cur = nil
